@@ -159,6 +159,29 @@ class Check:
     def signature(self, v):
         return v.get("sig") or dict(oracle=v.get("oracle"))
 
+    def case_layers(self, desc):
+        """context of a case used to recognise a recorded finding (layer kinds of the recipe / op kinds of the program)"""
+        try:
+            return [L["op"] for L in desc["recipe"]["layers"]]
+        except Exception:
+            return []
+
+    def known_match(self, known, sig, desc):
+        layers = set(self.case_layers(desc))
+        for k in known:
+            if k.get("status", "known") != "known" or not sig_matches(k["signature"], sig):
+                continue
+            if not set(k.get("requires_layers", [])) <= layers:
+                continue
+            if k.get("requires_any") and not (set(k["requires_any"]) & layers):
+                continue
+            if k.get("kind_any") and sig.get("kind") not in k["kind_any"]:
+                continue
+            if k.get("max_layers") is not None and len(self.case_layers(desc)) > k["max_layers"]:
+                continue
+            return k
+        return None
+
     def triage(self, agg, confirm=True):
         known = [k for k in load_known() if k["property"] == self.pid]
         out = dict(lines=[], known_lines=[], records=[], other_props={})
@@ -172,37 +195,51 @@ class Check:
             key = json.dumps(sig, sort_keys=True)
             seen.setdefault(key, []).append((desc, v, sig))
         os.makedirs(REPLAYS, exist_ok=True)
-        t_min0 = time.time()
+        t0 = time.time()
+        reported = set()
         for key, occ in sorted(seen.items()):
-            desc, v, sig = occ[0]
-            kf = next((k for k in known if k.get("status", "known") == "known" and sig_matches(k["signature"], sig)), None)
-            if time.time() - t_min0 < 120 and kf is None:
-                try:
-                    desc_min = self.minimise_in_pool(desc, sig)
-                except Exception:
-                    desc_min = desc
-            else:
+            # pick a few occurrences per signature: first those no recorded finding could explain, then one per finding
+            fresh = [o for o in occ if self.known_match([dict(k, max_layers=None) for k in known], o[2], o[0]) is None]
+            chosen = fresh[:3]
+            ids = set()
+            for o in occ:
+                k = self.known_match([dict(k, max_layers=None) for k in known], o[2], o[0])
+                if k is not None and k["id"] not in ids and len(ids) < 3:
+                    ids.add(k["id"])
+                    chosen.append(o)
+            for desc, v, sig in chosen:
+                budget_left = 150 - (time.time() - t0)
                 desc_min = desc
-            name = f"{self.pid}-{seeds.digest(sig)}.json"
-            path = os.path.join(REPLAYS, name)
-            rec = dict(property=self.pid, signature=sig, violation=jsonable(v), case=jsonable(desc_min), occurrences=len(occ),
-                       original_case=jsonable(desc) if desc_min is not desc else None)
-            with open(path, "w") as f:
-                json.dump(rec, f, indent=1, sort_keys=True)
-            confirmed = True
-            if confirm:
-                confirmed = self.confirm(path)
-            rec["confirmed"] = confirmed
-            out["records"].append(rec)
-            if not confirmed:
-                agg["inconclusive"] += 1
-                agg["inconclusive_kinds"]["violation_did_not_replay"] = agg["inconclusive_kinds"].get("violation_did_not_replay", 0) + 1
-                continue
-            if kf is not None:
-                out["known_lines"].append(f"KNOWN-FINDING: property={self.pid} {kf['id']}: {kf['what']} (seen {len(occ)}x, replay={path})")
-            else:
-                out["lines"].append(f"VIOLATION property={self.pid} replay={path}")
-                print(f"[{self.pid}] violation {json.dumps(sig, sort_keys=True)} detail={json.dumps(jsonable(v), sort_keys=True)[:600]}")
+                if budget_left > 0:
+                    try:
+                        desc_min = self.minimise(desc, sig)
+                    except Exception:
+                        desc_min = desc
+                kf = self.known_match(known, sig, desc_min)
+                tag = kf["id"] if kf else seeds.digest([sig, self.case_layers(desc_min)])
+                if (key, tag) in reported:
+                    continue
+                reported.add((key, tag))
+                name = f"{self.pid}-{seeds.digest([sig, tag])}.json"
+                path = os.path.join(REPLAYS, name)
+                rec = dict(property=self.pid, signature=sig, violation=jsonable(v), case=jsonable(desc_min), occurrences=len(occ),
+                           original_case=jsonable(desc) if desc_min is not desc else None)
+                with open(path, "w") as f:
+                    json.dump(rec, f, indent=1, sort_keys=True)
+                confirmed = self.confirm(path) if confirm else True
+                rec["confirmed"] = confirmed
+                rec["known"] = kf["id"] if kf else None
+                out["records"].append(rec)
+                if not confirmed:
+                    agg["inconclusive"] += 1
+                    agg["inconclusive_kinds"]["violation_did_not_replay"] = agg["inconclusive_kinds"].get("violation_did_not_replay", 0) + 1
+                    continue
+                if kf is not None:
+                    out["known_lines"].append(f"KNOWN-FINDING: property={self.pid} {kf['id']}: {kf['what']} (signature seen {len(occ)}x, replay={path})")
+                else:
+                    out["lines"].append(f"VIOLATION property={self.pid} replay={path}")
+                    print(f"[{self.pid}] violation {json.dumps(sig, sort_keys=True)} layers={self.case_layers(desc_min)} "
+                          f"detail={json.dumps(jsonable(v), sort_keys=True)[:500]}")
         return out
 
     def minimise_in_pool(self, desc, sig):
@@ -261,7 +298,7 @@ class Check:
             components=self.components,
             other_property_observations=viols["other_props"],
             known_findings_hit=[ln.split(" ")[2] for ln in viols["known_lines"]],
-            violation_records=[dict(signature=r["signature"], confirmed=r["confirmed"], occurrences=r["occurrences"]) for r in viols["records"]],
+            violation_records=[dict(signature=r["signature"], confirmed=r["confirmed"], occurrences=r["occurrences"], known=r.get("known")) for r in viols["records"]],
         )
         if agg.get("harness_tracebacks"):
             cov["harness_tracebacks"] = agg["harness_tracebacks"]
